@@ -61,6 +61,50 @@ def retransmit_route_rule(run):
               'p.hops re-assigned from the channel before the segment is queued for retransmission')
 
 
+def accept_queue_rules(run):
+    """Registering an accept and queueing a SYN both re-examine the accept queue; the hand-out happens whenever a
+    handler is pending and a connection is queued (shared with C16: the HTTP server's next client is accepted)."""
+    fx = run.fx
+    run.clause('R10 accept-queue: registering an accept and queueing a SYN both re-examine the accept queue (sibling agreement over the three async_accept overloads)')
+    A = 'sim::asio::ip::tcp::acceptor'
+    overloads = fx.fn(A + '::async_accept')
+    if len(overloads) < 3:
+        run.broke('only %d async_accept overloads found (3 confirmed by hand)' % len(overloads))
+    for f in overloads:
+        run.touch(f)
+        sets = [fl for fl in handlers.flows_in(fx, f) if (fl.dest or '').startswith('slot:' + A + '::m_accept_handler')]
+        chk = [c for c in f.calls() if q.callee_name(c) == A + '::check_accept_queue']
+        run.check(bool(sets) and all(q.must_follow(f, fl.site, chk) for fl in sets), 'R10', 'accept-queue', '%s%s' % (f.norm, f.sig[:60]), f.loc(),
+                  'the accept handler is stored without check_accept_queue() following on every path: a connection that was queued before the accept was issued is never handed out (until another SYN arrives)',
+                  'check_accept_queue() follows the registration of the handler')
+    ai = fx.fn1(A + '::incoming_packet')
+    run.touch(ai)
+    pc = [c for c in ai.calls() if (c.get('callee') or '').split('::')[-1] in ('push_back', 'emplace_back') and q.render(ai, c.get('obj')) == 'm_incoming_conns']
+    chk = [c for c in ai.calls() if q.callee_name(c) == A + '::check_accept_queue']
+    run.check(bool(pc) and all(q.must_follow(ai, c, chk) for c in pc), 'R10', 'accept-queue', A + '::incoming_packet:syn', ai.loc(),
+              'a SYN is queued without check_accept_queue() following: an outstanding accept is not completed', 'check_accept_queue() follows the queued SYN')
+    caq = fx.fn1(A + '::check_accept_queue')
+    run.touch(caq)
+    # the hand-out is reached whenever a handler is pending and the queue is non-empty (and the acceptor is open)
+    pops = [c for c in caq.calls() if (c.get('callee') or '').endswith('::erase') and q.render(caq, c.get('obj')) == 'm_incoming_conns']
+    okc = bool(pops)
+    extra = []
+    for c in pops:
+        # evaluated in the two abstract states "an accept of either form is pending, a connection is queued": every guard on
+        # the way to the hand-out must hold there (Kleene evaluation of whatever way the tests are combined or named)
+        for h1, h2 in ((True, False), (False, True)):
+            leaf = lambda n_: {'m_accept_handler': h1, 'm_accept_handler2': h2, 'm_incoming_conns.empty()': False, 'm_incoming_conns.size()': True}.get(q.render(caq, n_)) if q.strip_casts(n_)['k'] not in ('un', 'bin') else None
+            for a, p_ in q.guards_at(caq, c):
+                v = q.eval3(a, leaf)
+                if v is None or v != p_:
+                    extra.append((q.render(caq, a), p_))
+        if extra:
+            okc = False
+    run.check(okc, 'R10', 'accept-queue-dispatch', A + '::check_accept_queue', caq.loc(), 'the queued connection is handed out only under extra conditions: ' + str(extra if not okc and pops else ''),
+              'handed out whenever a handler is pending and the queue is non-empty')
+
+
+
 def eval_bool(fn, n, env, subst):
     """Evaluate a boolean expression tree under env: callback atom -> bool|None."""
     n = q.strip_casts(n)
@@ -248,44 +292,7 @@ def check(run):
     run.check(bool(mv) and all(q.must_follow(ip, f.site, synack_wakes + resets) for f in mv) and bool(synack_wakes), 'R10', 'tcp-connect', T + '::incoming_packet:syn_ack-branch', ip.loc(),
               'after the connect handler is completed on SYN-ACK no maybe_wakeup_writer() follows: a write issued before the connect finished stays parked forever', 'maybe_wakeup_writer() follows the connect completion on the success path')
 
-    # ------------------------------------------------------------ accept queue
-    run.clause('R10 accept-queue: registering an accept and queueing a SYN both re-examine the accept queue (sibling agreement over the three async_accept overloads)')
-    A = 'sim::asio::ip::tcp::acceptor'
-    overloads = fx.fn(A + '::async_accept')
-    if len(overloads) < 3:
-        run.broke('only %d async_accept overloads found (3 confirmed by hand)' % len(overloads))
-    for f in overloads:
-        run.touch(f)
-        sets = [fl for fl in handlers.flows_in(fx, f) if (fl.dest or '').startswith('slot:' + A + '::m_accept_handler')]
-        chk = [c for c in f.calls() if q.callee_name(c) == A + '::check_accept_queue']
-        run.check(bool(sets) and all(q.must_follow(f, fl.site, chk) for fl in sets), 'R10', 'accept-queue', '%s%s' % (f.norm, f.sig[:60]), f.loc(),
-                  'the accept handler is stored without check_accept_queue() following on every path: a connection that was queued before the accept was issued is never handed out (until another SYN arrives)',
-                  'check_accept_queue() follows the registration of the handler')
-    ai = fx.fn1(A + '::incoming_packet')
-    run.touch(ai)
-    pc = [c for c in ai.calls() if (c.get('callee') or '').split('::')[-1] in ('push_back', 'emplace_back') and q.render(ai, c.get('obj')) == 'm_incoming_conns']
-    chk = [c for c in ai.calls() if q.callee_name(c) == A + '::check_accept_queue']
-    run.check(bool(pc) and all(q.must_follow(ai, c, chk) for c in pc), 'R10', 'accept-queue', A + '::incoming_packet:syn', ai.loc(),
-              'a SYN is queued without check_accept_queue() following: an outstanding accept is not completed', 'check_accept_queue() follows the queued SYN')
-    caq = fx.fn1(A + '::check_accept_queue')
-    run.touch(caq)
-    # the hand-out is reached whenever a handler is pending and the queue is non-empty (and the acceptor is open)
-    pops = [c for c in caq.calls() if (c.get('callee') or '').endswith('::erase') and q.render(caq, c.get('obj')) == 'm_incoming_conns']
-    okc = bool(pops)
-    extra = []
-    for c in pops:
-        # evaluated in the two abstract states "an accept of either form is pending, a connection is queued": every guard on
-        # the way to the hand-out must hold there (Kleene evaluation of whatever way the tests are combined or named)
-        for h1, h2 in ((True, False), (False, True)):
-            leaf = lambda n_: {'m_accept_handler': h1, 'm_accept_handler2': h2, 'm_incoming_conns.empty()': False, 'm_incoming_conns.size()': True}.get(q.render(caq, n_)) if q.strip_casts(n_)['k'] not in ('un', 'bin') else None
-            for a, p_ in q.guards_at(caq, c):
-                v = q.eval3(a, leaf)
-                if v is None or v != p_:
-                    extra.append((q.render(caq, a), p_))
-        if extra:
-            okc = False
-    run.check(okc, 'R10', 'accept-queue-dispatch', A + '::check_accept_queue', caq.loc(), 'the queued connection is handed out only under extra conditions: ' + str(extra if not okc and pops else ''),
-              'handed out whenever a handler is pending and the queue is non-empty')
+    accept_queue_rules(run)
 
     run.clause('entry conditions of progress: the window admits a segment whenever the segment size changes; a moved socket keeps its stream position (shared with C20 / C12)')
     import p20, p12
@@ -362,6 +369,9 @@ def check(run):
     run.clause('R1 no closure, handler or packet field is filled by std::move of an object that a later iteration of the same loop moves again (moved-from reuse: only the first segment would carry its drop callback / only the first completion its handler)')
     nmv = engines.moved_in_loop(run, [f_ for f_ in fx.repo_functions() if f_.file.startswith(simlib.REPO_PREFIX + 'src/')])
     run.ok('R1', 'moved-from-in-loop', 'scan', '', 'std::move sites inside loops examined: %d' % nmv, nontrivial=False)
+    run.clause('a reused socket object delivers: close(ec) resets every per-connection field (sequence numbers, windows, queues) on every normal path, so the next connection\'s first segment is the one the receiver expects (shared with C05/C07)')
+    import p05
+    p05.close_resets_rule(run)
     run.floor('R10', 5)
     run.floor('R9', 3)
 
